@@ -158,6 +158,13 @@ def cases(rng, tier):
         mm = rng.choice([None, fb, max(fb - 1, 0), 100])
         yield _stream(rng.choice(STREAMS), b, "utf8", 324, mm, chunks)
     yield from _adversarial(rng, tier)
+    # the documented default limits (left to the helpers themselves): forms with exactly / one more than / many more parts
+    for k in (324, 325, 400, 1001):
+        b = b"bd"
+        body = M.encode_form(b, [M.Part("f%d" % (i % 7), b"v") for i in range(k)])
+        for sop in ("mp_stream", "mp_astream", "mp_stream_min", "mp_astream_min"):
+            yield _stream(sop, b, "utf8", 324, None, [body])
+            yield _stream(sop, b, "utf8", 324, None, [body[:5000], body[5000:]])
     # forms whose parts carry no `name` parameter (fields and files): they are parts all the same
     for _ in range(40 if tier == "quick" else 800):
         b = rng.choice([b"bd", b"X" * 12])
@@ -219,7 +226,7 @@ def extra(rng, tier):
     sizes = [256 * 1024, 1024 * 1024] if tier == "quick" else [256 * 1024, 1024 * 1024, 2 * 1024 * 1024]
     for size in sizes:
         for lead in (b"\r", b"\n", b"", b"\r\n-", b"a\r\n--bigboundaryX", b"\n--bigboundary="):
-            for chunk in (4096, 65536):
+            for chunk in (4096, 65536, 0):
                 for is_async in (False, True):
                     for is_file in (True, False):
                         b = b"bigboundary"
@@ -227,6 +234,8 @@ def extra(rng, tier):
                         parts = [M.Part("up", content, "big.bin" if is_file else None, [])]
                         body = M.encode_form(b, parts)
                         consumed = [0]
+                        if chunk == 0:
+                            chunk = len(body) + 1          # the whole upload arrives as one chunk
 
                         def gen():
                             for i in range(0, len(body), chunk):
@@ -271,4 +280,39 @@ def extra(rng, tier):
                                 size, enc(lead), chunk, is_async, is_file)
                             violations.append({"line": line, "out": "%s held=%d chunks=%d" % (
                                 res, M._Rec.held, consumed[0]), "why": why})
+    # a large part followed by small ones, the whole body in one chunk / in two: every part is returned, and the part
+    # limit is applied to all of them
+    for size in (1024 * 1024 + 17, 3 * 1024 * 1024):
+        for is_async in (False, True):
+            for cut in (None, 700000):
+                b = b"bigboundary"
+                content = bytes(range(256)) * (size // 256) + b"tail"
+                parts = [M.Part("up", content, "big.bin", []), M.Part("a", b"1"), M.Part("b", b"2")]
+                body = M.encode_form(b, parts)
+                chunks = [body] if cut is None else [body[:cut], body[cut:]]
+                for max_parts in (2, 3):
+                    kw = dict(file_factory=UploadFile, max_form_parts=max_parts)
+                    try:
+                        if is_async:
+                            async def agen2():
+                                for c in chunks:
+                                    yield c
+
+                            items = asyncio.run(helper_mod.parse_async_stream(agen2(), b, "utf8", **kw))
+                        else:
+                            items = helper_mod.parse_stream(iter(chunks), b, "utf8", **kw)
+                        got = [(n, v if isinstance(v, str) else v.read()) for n, v in items]
+                        res = "ok" if got == [("up", content), ("a", "1"), ("b", "2")] else "ok-but %d items %s" % (
+                            len(got), [(n, len(v)) for n, v in got])
+                    except HTTPException as exc:
+                        res = "http %d" % exc.status_code
+                    except Exception as exc:  # noqa
+                        res = "crash " + type(exc).__name__
+                    runs += 1
+                    want = "http 413" if max_parts < 3 else "ok"
+                    if res != want:
+                        violations.append({"line": "mp_big3 size=%d async=%s chunks=%d max_parts=%d" % (
+                            size, is_async, len(chunks), max_parts), "out": res,
+                            "why": "a %d-byte upload followed by two fields, body in %d chunk(s), max_form_parts=%d: expected %s, got %s"
+                                   % (len(content), len(chunks), max_parts, want, res)})
     return {"violations": violations, "big_upload_runs": runs}
